@@ -25,7 +25,7 @@ LEVEL = "exploration"
 RULE = (
     "generated valid inputs of 2-3 assets that share exchanges, holders and sheet row numbers, all timestamps distinct; "
     "relations: (1) same files run with PYTHONHASHSEED 0 / 1 / random give identical reports; (2) an output directory "
-    "pre-filled with the reports of a different input under the same names plus junk files gives the same reports and leaves "
+    "pre-filled with the reports of a different input under the same names (in half of the cases edited since: numbers typed over prompts and texts) plus junk files gives the same reports and leaves "
     "the junk untouched; (3) rows permuted within tables, tables permuted within a sheet, sheets permuted give identical "
     "reports; (4) asset X alone (-a X, or a config listing only X) gives the same X sheets, the same X rows in shared sheets "
     "and the same X balances / costs as X among others; in-process: one engine object reused for the assets in different "
@@ -41,8 +41,8 @@ ASSUMPTIONS = [
     "reports are compared on cell values and formula text as read back by ezodf, not on bytes (ODS files embed nothing time-dependent that RP2 controls, but zip metadata may differ)",
 ]
 SETTINGS: Dict[str, Dict[str, Any]] = {
-    "quick": {"cases": 16, "inproc_cases": 300, "inproc_perm_cases": 1600, "budget_s": 75, "minimums": {"relation_1": 12, "relation_2": 12, "relation_3": 12, "relation_4": 12, "relation_5": 12, "relation_6": 12, "inproc_engine_reuse": 200, "inproc_row_permutation": 1000, "inproc_row_permutation_with_sub_second_lots": 200, "nontrivial": 12}},
-    "thorough": {"cases": 200, "inproc_cases": 8000, "inproc_perm_cases": 60000, "budget_s": 600, "minimums": {"relation_1": 100, "relation_2": 100, "relation_3": 100, "relation_4": 100, "relation_5": 100, "relation_6": 100, "inproc_engine_reuse": 5000, "inproc_row_permutation": 30000, "inproc_row_permutation_with_sub_second_lots": 6000, "nontrivial": 100}},
+    "quick": {"cases": 16, "inproc_cases": 300, "inproc_perm_cases": 1600, "budget_s": 75, "minimums": {"relation_1": 12, "relation_2": 12, "relation_2_with_edited_earlier_reports": 3, "relation_3": 12, "relation_4": 12, "relation_5": 12, "relation_6": 12, "inproc_engine_reuse": 200, "inproc_row_permutation": 1000, "inproc_row_permutation_with_sub_second_lots": 200, "nontrivial": 12}},
+    "thorough": {"cases": 200, "inproc_cases": 8000, "inproc_perm_cases": 60000, "budget_s": 600, "minimums": {"relation_1": 100, "relation_2": 100, "relation_2_with_edited_earlier_reports": 30, "relation_3": 100, "relation_4": 100, "relation_5": 100, "relation_6": 100, "inproc_engine_reuse": 5000, "inproc_row_permutation": 30000, "inproc_row_permutation_with_sub_second_lots": 6000, "nontrivial": 100}},
 }
 REPORTS = COUNTRY_REPORTS["us"]
 
@@ -93,6 +93,29 @@ def make_case(rng: random.Random) -> Dict[str, Any]:
     return {"hists": hists, "other": other, "method": rng.choice(METHODS), "perm_seed": rng.randint(0, 10**9)}
 
 
+def _scribble(directory: str, rng: random.Random) -> None:
+    """Edit every report in the directory the way a user filling it in would: text cells (prompts such as 'Enter asset value',
+    notes) overwritten with numbers, some numbers changed. Formulas are left alone."""
+    import ezodf
+
+    for fname in sorted(os.listdir(directory)):
+        if not fname.endswith(".ods"):
+            continue
+        path = os.path.join(directory, fname)
+        doc = ezodf.opendoc(path)
+        for sheet in doc.sheets:
+            for r in range(sheet.nrows()):
+                for c in range(sheet.ncols()):
+                    cell = sheet[r, c]
+                    if cell.formula or cell.value is None:
+                        continue
+                    if isinstance(cell.value, str) and (cell.value.startswith("Enter") or rng.random() < 0.2):
+                        cell.set_value(12345.5 + rng.randint(0, 9))
+                    elif isinstance(cell.value, (int, float)) and not isinstance(cell.value, bool) and rng.random() < 0.2:
+                        cell.set_value(float(cell.value) * 2 + 1)
+        doc.save()
+
+
 def _one(ctx: Any, case: Dict[str, Any], name: str, relations: Tuple[int, ...] = (1, 2, 3, 4, 5, 6)) -> None:
     ws = Workspace(ctx.scratch, name)
     try:
@@ -128,6 +151,10 @@ def _one(ctx: Any, case: Dict[str, Any], name: str, relations: Tuple[int, ...] =
                 ws_other.write(copy.deepcopy(case["other"]))
                 out = ws.new_out()
                 pre = ws_other.run("us", args, out_dir=out, audit=False)
+                if pre.exit == 0 and case.get("perm_seed", 0) % 2 == 0:
+                    # ... which the user has since worked in: numbers typed over prompts and texts, figures changed
+                    _scribble(out, random.Random(case.get("perm_seed", 0)))
+                    ctx.count("relation_2_with_edited_earlier_reports")
                 junk = {"notes.txt": b"keep me\n", "fifo_rp2_full_report.ods.bak": b"\x00\x01junk", "zz.ods": b"not a spreadsheet"}
                 for fname, data in junk.items():
                     with open(os.path.join(out, fname), "wb") as handle:
